@@ -31,14 +31,11 @@ def getReader (c : Cache) (disk : List Nat) (f : Nat) : Option Cache :=
   | some r => some (upd c f (some (r + 1)))
   | none => if f ∈ disk then some (upd c f (some 1)) else none
 
-/-- one iteration of `storeCache.ReleaseReaders`: `cache.Get(name)` found ⇒ `entry.release()` -/
-def release1 (c : Cache) (f : Nat) : Cache :=
-  match c f with
-  | some r => upd c f (some (r - 1))
-  | none => c
-
-/-- `storeCache.ReleaseReaders(readers)` (one critical section) -/
-def releaseAll (c : Cache) (fs : List Nat) : Cache := fs.foldl release1 c
+/-- `storeCache.ReleaseReaders(readers)` (one critical section): for every reader,
+`cache.Get(name)` found ⇒ `entry.release()`. Entries are neither added nor removed inside the
+loop, so entry `f` loses one reference per occurrence of `f` in `readers`. -/
+def releaseAll (c : Cache) (fs : List Nat) : Cache :=
+  fun f => (c f).map (fun r => r - (fs.count f : Int))
 
 /-- `storeCache.Evict(fileName)`: closes (unmaps) the reader whatever its ref is, removes the entry -/
 def evict (c : Cache) (f : Nat) : Cache := upd c f none
